@@ -93,6 +93,7 @@ def res : Res → Json
   | .none => Json.null
   | .value d a => Json.arr #[desc d, nat a]
   | .keyError f => Json.arr #[Json.str "keyError", nat f]
+  | .lowerVersion e r => Json.arr #[Json.str "lowerVersion", nat e, nat r]
 
 def tableJson (cls : ClassDef) (e : Nat) : Json :=
   Json.arr ((keys cls).filterMap fun k =>
